@@ -15,6 +15,10 @@ if os.environ.get("PYTHONHASHSEED") != "0":
 
 HERE = os.path.dirname(os.path.abspath(__file__))
 sys.path.insert(0, os.path.dirname(HERE))
+# development only (mutation experiments on a scratch worktree): VERIF_REPO=/tmp/wt ./check ...
+REPO = os.environ.get("VERIF_REPO", "/repo")
+if REPO != "/repo":
+    sys.path.insert(0, REPO)
 sys.setrecursionlimit(1000)   # the default; C20 relies on it
 
 from mc.core import runner  # noqa: E402
@@ -31,9 +35,11 @@ def main():
     ap.add_argument("--estimate", action="store_true", help="print the size of each part and exit")
     a = ap.parse_args()
     import pysmt
-    if not os.path.realpath(pysmt.__file__).startswith("/repo/"):
-        print("harness error: pysmt imported from %s, not /repo" % pysmt.__file__)
+    if not os.path.realpath(pysmt.__file__).startswith(os.path.realpath(REPO) + "/"):
+        print("harness error: pysmt imported from %s, not %s" % (pysmt.__file__, REPO))
         return 2
+    if REPO != "/repo":
+        print("NOTE: running against scratch tree %s (not evidence)" % REPO)
     if a.prop == "selftest":
         from mc.core import selftest
         return selftest.main()
